@@ -19,7 +19,7 @@ template<class T> static LD mdiff4(glm::mat<4, 4, T> const& g, M3 const& r) { LD
 template<class T> static std::string qs(glm::qua<T> const& q) { return "(w=" + str((double)q.w) + ",x=" + str((double)q.x) + ",y=" + str((double)q.y) + ",z=" + str((double)q.z) + ")"; }
 template<class T> static glm::qua<T> unitq(Rng& g, int kind) {
 	LD x = g.real(-1, 1), y = g.real(-1, 1), z = g.real(-1, 1), w = g.real(-1, 1);
-	if (kind == 1) { LD e = 1e-9L; int k = g.range(0, 2); x = (k == 0) + e * g.real(-1, 1); y = (k == 1) + e * g.real(-1, 1); z = (k == 2) + e * g.real(-1, 1); w = e * g.real(-1, 1); }      // near an axis, w ~ 0
+	if (kind == 1) { static const LD es[] = {1e-9L, 1e-7L, 1e-5L, 2e-4L, 1e-3L, 1e-2L, 1e-1L}; int k = g.range(0, 3); LD v[4]; for (int i = 0; i < 4; ++i) v[i] = es[g.range(0, 6)] * g.real(-1, 1) * (g.range(0, 3) ? 1 : 0); v[k] = g.range(0, 1) ? 1 : -1; x = v[0]; y = v[1]; z = v[2]; w = v[3]; }   /* near +-x, +-y, +-z or +-w with perturbations of every order (each of the other components independently tiny, small or zero: the order in which the largest-of-four cascade sees them matters) */      // near an axis, w ~ 0
 	if (kind == 2) { w = g.range(0, 1) ? 1 : -1; x *= 1e-6L; y *= 1e-6L; z *= 1e-6L; }                                                                                                    // w ~ +-1
 	if (kind == 3) { LD a = g.real(-3.2, 3.2), s = sqrtl(0.5L); int sg = g.range(0, 1) ? 1 : -1; w = s * cosl(a); x = s * sinl(a); y = sg * s * cosl(a); z = -sg * s * sinl(a) * (sg > 0 ? 1 : -1) * (sg > 0 ? 1 : 1); if (sg < 0) { y = -s * cosl(a); z = s * sinl(a); } }   // gimbal-lock poles (yaw = +-90 deg)
 	if (kind == 4) { int k = g.range(0, 3); LD v[4] = {0, 0, 0, 0}; v[k] = 1; int k2 = (k + 1 + g.range(0, 2)) % 4; v[k2] = g.real(0.95, 1.05); x = v[0]; y = v[1]; z = v[2]; w = v[3]; }    // two nearly equal largest components
@@ -41,7 +41,11 @@ template<class T> static void run(Rng& g, int n) {
 		if (it < 4) { count("axis" + ty); glm::qua<T> id = glm::qua<T>::wxyz((T)(it & 1 ? -1 : 1), (T)0, (T)0, (T)(it & 2 ? std::numeric_limits<T>::denorm_min() : 0)); auto ax = glm::axis(id); LD n2 = (LD)ax.x * ax.x + (LD)ax.y * ax.y + (LD)ax.z * ax.z;   // w = +-1 exactly: any unit axis, never NaN
 			if (!(fabsl(n2 - 1) <= 64 * eps)) fail("axis" + ty, "w = +-1", qs(id), "a unit vector", str((double)ax.x) + "," + str((double)ax.y) + "," + str((double)ax.z));
 			auto r = glm::angleAxis(glm::angle(id), ax); if (!(mdiff(glm::mat3_cast(r), qmat(id.x, id.y, id.z, id.w)) <= 4096 * eps)) fail("angleAxis" + ty, "w = +-1", qs(id), "same rotation", qs(r)); }
-		if (kind != 2) { count("angleAxis" + ty); auto r = glm::angleAxis(glm::angle(q), glm::axis(q)); if (!(mdiff(glm::mat3_cast(r), R) <= 4096 * eps)) fail("angleAxis" + ty, "roundtrip", qs(q), "same rotation", qs(r)); }
+		if (kind != 2) { count("angleAxis" + ty); auto r = glm::angleAxis(glm::angle(q), glm::axis(q));
+		  // axis() divides by sqrt(1 - w^2): next to w = +-1 that difference cancels (relative error eps / |v|^2), and once w rounds to +-1 the axis is arbitrary while
+		  // the angle is still |v|-sized: the rebuilt rotation is off by about min(|v|, eps / |v|), at most sqrt(eps) -- conditioning of the documented formula, not a defect
+		  LD vn = sqrtl((LD)q.x * q.x + (LD)q.y * q.y + (LD)q.z * q.z); LD taa = 4096 * eps + 16 * std::min(vn, vn > 0 ? eps / vn : (LD)0);
+		  if (!(mdiff(glm::mat3_cast(r), R) <= taa)) fail("angleAxis" + ty, "roundtrip", qs(q), "same rotation", qs(r)); }
 		{ count("eulerAngles" + ty); auto e = glm::eulerAngles(q); auto r = glm::qua<T>(e); LD sy = 2 * ((LD)q.w * q.y - (LD)q.x * q.z); LD cy = sqrtl(std::max((LD)0, 1 - sy * sy)); LD t = 4096 * eps / std::max(cy, 64 * sqrtl(eps)) + (kind == 3 ? 64 * sqrtl(eps) : 0); if (!(mdiff(glm::mat3_cast(r), R) <= t)) fail("eulerAngles" + ty, kind == 3 ? "gimbal-pole" : "roundtrip", qs(q), "quat(eulerAngles(q)) same rotation", qs(r) + " euler=(" + str((double)e.x) + "," + str((double)e.y) + "," + str((double)e.z) + ")");
 		  M3 E = mul(mul(rot(2, e.z), rot(1, e.y)), rot(0, e.x)); if (!(mdiff(glm::mat3_cast(q), E) <= t)) fail("eulerAngles" + ty, kind == 3 ? "gimbal-pole-matrix" : "matrix", qs(q), "Rz(roll)Ry(yaw)Rx(pitch)", "differs"); }
 		// exactly opposite vectors (the constructor's fallback axis): along each signed coordinate axis and in general position; the image of u under
